@@ -52,7 +52,9 @@ def _case(draw):
             "layout": draw(st.sampled_from(["C", "C", "F", "view"])),
             "stack": draw(st.integers(1, 3)), "level": 0,
             # the field as a single-precision run returns it, next to a double-precision base function
-            "f32": draw(st.integers(0, 3)) == 0}
+            "f32": draw(st.integers(0, 3)) == 0,
+            # a north-up raster: the y axis (or the x axis) stored descending, rows / columns of the field stored accordingly
+            "descending": draw(st.sampled_from(["none", "none", "y", "x", "xy"]))}
     case["level"] = draw(st.integers(0, case["stack"] - 1))
     return case
 
@@ -178,6 +180,14 @@ def check_case(case):
     if f32:
         f = f.astype(float)
         total = f.sum()
+    desc = case.get("descending", "none")
+    if desc != "none":
+        # the same field on axes stored the other way round: same cells, same cell size, same answer
+        if "y" in desc:
+            y, Y, f = y[::-1].copy(), Y[::-1].copy(), np.ascontiguousarray(f[::-1])
+        if "x" in desc:
+            x, X, f = x[::-1].copy(), X[:, ::-1].copy(), np.ascontiguousarray(f[:, ::-1])
+        out.label("descending-axis=" + desc)
     st_ = case["stack"]
     lvl = case["level"]
     if st_ == 1:
